@@ -765,7 +765,10 @@ pub fn gen_case(seed: u64, id: u64) -> Case {
                         "boolean('')", "not(//*)", "count(/)", "//*[position()=last()]/..", "(//*)[0]", "//*[-1]", "//*[1.5]", "//*[0 div 0]",
                         "//*[true()][false()]", "//*[last()][last()]", "//text()[string-length() > 2]", "//*[name() = local-name()]",
                         "//*[count(ancestor::*) > 1]", "//*[sum(@id) > 0]", "//*[string(@x)]", "//*[not(@*)]", "-(-1)", "1 - -1", "2 * 3 div 4 mod 5",
-                        "'a' = 1", "true() > false()", "//comment() | //processing-instruction()", "//*[self::a or self::b]", "//@*[. = '']",
+                        "'a' = 1", "true() > false()", "//namespace::*[/]", "//namespace::*[/*]", "//namespace::*/..", "//namespace::*/parent::*",
+                        "count(//namespace::*/ancestor::*)", "//namespace::*[name()]", "string(//namespace::*)", "//namespace::*[. = 'urn:p']",
+                        "//namespace::*/following::*", "//namespace::*/self::node()", "//namespace::*/namespace::*", "//@*[/]", "//@*/following::*",
+                        "//comment()[/]", "//text()[../..]", "/*[/*[/*]]", "//*[@x + 1]", "//*[@* * 2 > 1]", "//*[-@id]", "//*[@x mod 2]", "sum(//@x)", "//comment() | //processing-instruction()", "//*[self::a or self::b]", "//@*[. = '']",
                     ])
                     .to_string();
                 paths.clear();
